@@ -145,6 +145,21 @@ def run(cx):
             bad.append(f'{s.body.name}: {show(a)[:120]}')
     cx.ob('EXPR', 'KdTree::within:callers-plain-distance', okp and len(sites) >= 3,
           'the wrapper squares the radius itself (KdTree::within), so no caller passes a squared quantity (x*x, powi, *_squared) as the search radius', found='; '.join(bad) or f'{len(sites)} call sites')
+    b = cx.fn('geom2::hull::find_start_on_index')
+    if b:
+        from vpa import comp as CMP
+        kn = b.calls(f'{KD}::KdTree::new')
+        okt = len(kn) == 1
+        if okt:
+            comps = [c for c in CMP.comprehensions(cx, b, cx.arg(kn[0], 0)) if c.get('elem') is not None]
+            IP = '(itervar (range 0 (len (param points))))'
+            okt = len(comps) == 1 and comps[0]['src'] is not None and match('(param points)', comps[0]['src']) is not None and match(f'(index (param points) {IP})', comps[0]['elem']) is not None and \
+                len(comps[0]['conds']) == 1 and (CMP.has_cond(comps[0], f'(eq {IP} (param index))', False) or CMP.has_cond(comps[0], f'(ne {IP} (param index))', True))
+        n1 = b.calls(f'{KD}::KdTree::nearest_one')
+        okq = len(n1) == 1 and match('(call *Circle2::point_at_angle (call *Circle2::from_point (index (param points) (param index)) (param radius)) _)', cx.arg(n1[0], 1)) is not None and not b.calls(f'{KD}::KdTree::nearest')
+        cx.ob('EXPR', 'find_start_on_index:clearance', okt and okq,
+              'the start direction is chosen by the clearance of the candidate ball centre (on the circle of the given radius about the start point) to the NEAREST of all OTHER points: '
+              'the tree holds every point except the start point, and the nearest one is asked for', where=b.file)
     b = cx.fn('geom2::hull::ball_pivot_with_centers_2d')
     if b:
         w = b.calls(f'{KD}::KdTree::within')
@@ -178,6 +193,16 @@ def run(cx):
             if val == ('const', False) and match('(index _ (field 0 (itervar (call *KdTree::within ...))))', tgt) is not None:
                 okm = True
         cx.ob('EXPR', 'sample_poisson_disk:mask-write', okm and len(st) == 1, 'mask[w.0] = false for every neighbour w (indices into working_points)', where=b.file)
+        # ... for EVERY neighbour the tree returned (the kept point itself and exact duplicates included): the write has no condition of its own
+        okall = len(st) == 1 and len(w) == 1
+        own = []
+        if okall:
+            own = [(a, p) for a, p in set(cx.guards(b, st[0].bb)) - set(cx.guards(b, w[0].bb))
+                   if not (a[0] == 'is' and isinstance(a[1], tuple) and a[1] and a[1][0] == 'call' and str(a[1][1]).endswith('::next'))]
+            okall = not own
+        cx.ob('GUARD', 'sample_poisson_disk:mask-every-neighbour', okall,
+              'inside the loop over the neighbours the mask is cleared unconditionally: no neighbour within the radius - a coincident point included - can be kept later', where=b.file,
+              found='; '.join(('' if p else 'NOT ') + show(a)[:160] for a, p in own))
         for cl in cx.facts.closures_of(b.name):
             cx.expect('EXPR', 'sample_poisson_disk:working_points', cx.retval(cl), '(index (field cap:all_points (param 1)) (param i))', 'working_points[m] = all_points[working_indices[m]]', where=cl.file)
     # ---------------------------------------------------------------- mesh sampling
